@@ -26,9 +26,12 @@ const (
 	FsDir     = "fs-dir"
 	SingleMM  = "single-mm"
 	SingleDir = "single-dir"
+	// the shipped "directfs" backend without -directfs.meta: objects in a real directory,
+	// their metadata only in memory
+	SingleDirMemMeta = "single-dir-memmeta"
 )
 
-var AllKinds = []string{Mem, Bolt, FsMM, FsDir, SingleMM, SingleDir}
+var AllKinds = []string{Mem, Bolt, FsMM, FsDir, SingleMM, SingleDir, SingleDirMemMeta}
 var MultiKinds = []string{Mem, Bolt, FsMM, FsDir}
 var KVKinds = []string{Mem, Bolt}
 
@@ -36,10 +39,19 @@ var KVKinds = []string{Mem, Bolt}
 const SingleName = "solo-bucket"
 
 func IsFs(kind string) bool {
-	return kind == FsMM || kind == FsDir || kind == SingleMM || kind == SingleDir
+	return kind == FsMM || kind == FsDir || kind == SingleMM || kind == SingleDir || kind == SingleDirMemMeta
 }
-func IsSingle(kind string) bool { return kind == SingleMM || kind == SingleDir }
-func IsDisk(kind string) bool   { return kind == Bolt || kind == FsDir || kind == SingleDir }
+func IsSingle(kind string) bool {
+	return kind == SingleMM || kind == SingleDir || kind == SingleDirMemMeta
+}
+func IsDisk(kind string) bool {
+	return kind == Bolt || kind == FsDir || kind == SingleDir || kind == SingleDirMemMeta
+}
+
+// HasRealDir: the objects live in a directory of the host file system.
+func HasRealDir(kind string) bool {
+	return kind == FsDir || kind == SingleDir || kind == SingleDirMemMeta
+}
 
 type Opts struct {
 	Kind          string
@@ -158,6 +170,16 @@ func NewServer(o Opts) (*Server, error) {
 			return nil, err
 		}
 		b, err := s3afero.SingleBucket(SingleName, fs, mfs)
+		if err != nil {
+			return nil, err
+		}
+		be = b
+	case SingleDirMemMeta:
+		fs, err := s3afero.FsPath(filepath.Join(s.Dir, "data"), s3afero.FsPathCreateAll)
+		if err != nil {
+			return nil, err
+		}
+		b, err := s3afero.SingleBucket(SingleName, fs, nil)
 		if err != nil {
 			return nil, err
 		}
